@@ -79,8 +79,15 @@ def check_case(ctx, out, cid, sg, dg, reply, label):
 
 def cross_cases():
     """bound-type x value-type, exhaustively (one representative pair of values per type)"""
-    reps = shapegen.POOL[:34]
+    reps = shapegen.POOL[:33]
     cases = []
+    # an ill-typed boolean on its own (rdflib normalises its lexical form to "false", so it must not share a case with a genuine one)
+    sg = Graph()
+    sg.add((EX.S, RDF.type, SH.NodeShape))
+    sg.add((EX.S, SH.datatype, XSD.boolean))
+    sg.add((EX.S, SH.targetNode, Literal("maybe", datatype=XSD.boolean)))
+    sg.add((EX.S, SH.targetNode, Literal(5)))
+    cases.append(("cross:datatype:ill-typed-boolean", sg, Graph()))
     for dt in [XSD.string, XSD.integer, XSD.decimal, XSD.double, XSD.boolean, XSD.dateTime, XSD.date, shapegen.LANGSTRING, EX.dt, XSD.float, XSD.time]:
         sg = Graph()
         sg.add((EX.S, RDF.type, SH.NodeShape))
@@ -162,10 +169,30 @@ def random_cases(rng, n):
     return cases
 
 
+def corpus_cases():
+    """witnesses of recorded findings (open and fixed) — run first on every run"""
+    from rdflib.namespace import RDFS
+    cases = []
+    sg = Graph(); sg.add((EX.S, RDF.type, SH.NodeShape)); sg.add((EX.S, SH.closed, Literal(True))); sg.add((EX.S, SH.targetNode, EX.a))
+    dg = Graph(); dg.add((EX.a, RDF.type, RDFS.Resource)); dg.add((EX.a, RDF.type, EX.C0))
+    cases.append(("corpus:closed-rdfs-Resource", sg, dg))
+    sg = Graph(); sg.add((EX.S, RDF.type, SH.NodeShape)); sg.add((EX.S, SH.minInclusive, Literal("2020-01-01T00:00:00", datatype=XSD.dateTime)))
+    for v in (Literal(5), Literal("5.0e0", datatype=XSD.double), Literal(True)):
+        sg.add((EX.S, SH.targetNode, v))
+    cases.append(("corpus:fixed:range-accepts-incomparable", sg, Graph()))
+    sg = Graph(); sg.add((EX.S, RDF.type, SH.NodeShape))
+    from rdflib.collection import Collection
+    lst = BNode("ll"); Collection(sg, lst, [Literal("en-US")]); sg.add((EX.S, SH.languageIn, lst))
+    for v in (Literal("x", lang="en-US-posix"), Literal("y", lang="en"), Literal("z", lang="en-us")):
+        sg.add((EX.S, SH.targetNode, v))
+    cases.append(("corpus:fixed:languageIn-multi-subtag", sg, Graph()))
+    return cases
+
+
 def run(ctx, out):
     rng = random.Random(ctx.seed * 7919 + 1)
     quick = ctx.tier == "quick"
-    cases = cross_cases() + kind_cases(rng) + random_cases(rng, 500 if quick else 8000)
+    cases = corpus_cases() + cross_cases() + kind_cases(rng) + random_cases(rng, 500 if quick else 8000)
     out.rule = ("exhaustive bound-type x value-type cross product for the 4 value-range components and lessThan/lessThanOrEquals; every "
                 "component x every node kind / literal type; random shapes with 1-4 Core components on node and property shapes (simple and "
                 "complex paths, all target kinds, severities, messages) over random data; non-trivial = distinct case with >=1 result")
